@@ -293,7 +293,15 @@ pub fn run_check(check: &Check, opts: &RunOpts) -> Report {
                             }
                             acc.index = i;
                             acc.evaluations += 1;
-                            (part.run)(i, acc);
+                            // a panic of the judging code means the library answered with something the
+                            // oracle cannot even take apart (e.g. offsets outside the text): reported as a
+                            // violation of this case, with its replay, instead of killing the whole run
+                            let r = std::panic::catch_unwind(std::panic::AssertUnwindSafe(|| (part.run)(i, &mut *acc)));
+                            if let Err(e) = r {
+                                let msg = e.downcast_ref::<String>().cloned().or_else(|| e.downcast_ref::<&str>().map(|s| s.to_string())).unwrap_or_else(|| "panic".to_string());
+                                acc.class("violation");
+                                acc.violation(None, json!({"part": part.name, "index": i}), format!("the oracle panicked while taking the library's answer apart ({}): the answer has a shape that no implementation satisfying the property produces - replay this case", msg));
+                            }
                         };
                         if let Some((_, i)) = only {
                             run_one(i, &mut acc);
